@@ -18,6 +18,7 @@ func c07Gen(seed uint64, run int, tier string) *Case {
 	c.Cfg["autorel"] = int64(r.Intn(2)) // parked implementation calls may wake up in the middle of activity
 	flushop := r.Bool()
 	c.Cfg["flushop"] = b2i(flushop)
+	c.Cfg["inplacewalk"] = 1
 	c.Stratum = "no-flushop"
 	if flushop {
 		c.Stratum = "flushop"
@@ -151,7 +152,10 @@ func c07Exec(x *Ctx) {
 			}
 			switch q.Type {
 			case Twalk:
-				if q.N%4 > 0 {
+				if q.Newfid == q.Fid {
+					// a cancelled walk in place leaves the fid what and where it was
+					mine = append(mine, &probe{q: q, s: &Sent{M: &Msg{Type: Tstat, Tag: tag, Fid: q.Fid}}, want: "valid"})
+				} else if q.N%4 > 0 {
 					mine = append(mine, &probe{q: q, s: &Sent{M: &Msg{Type: Tstat, Tag: tag, Fid: q.Newfid}}, want: "unknown"})
 				}
 			case Tclunk, Tremove:
